@@ -140,8 +140,9 @@ EvStep ==
                 /\ cov' = Bump(cov, "REJECTED")
 
 \* a Step that panicked or hung: never a behaviour of the specification (C12)
+IsHangOfRun == Ev.e = "x" /\ Ev.what = "hang" /\ "run" \in DOMAIN Ev
 EvPanic ==
-  /\ IsEv("x") /\ UNCHANGED c /\ KeepSK
+  /\ IsEv("x") /\ ~IsHangOfRun /\ UNCHANGED c /\ KeepSK
   /\ bad' = IF Len(bad) < MaxBad
             THEN Append(bad, [line |-> l, asp |-> {"panic"}, tag |-> Ev.what, pc |-> 0, f |-> 0, u |-> 0]) ELSE bad
   /\ cov' = Bump(cov, "REJECTED")
@@ -211,8 +212,11 @@ RunBegin ==
   /\ rs' = [on |-> TRUE, S |-> {RunStart(c, SchedOf(Ev.sched))}, D |-> {}, fuel |-> RunFuel]
   /\ UNCHANGED <<l, c, bad, cov, done, slot, kf>>
 
-\* states still to be advanced: all live ones, or (cancelled run) those short of the access count
-RunGo == IF RunTarget < 0 THEN rs.S ELSE {x \in rs.S : x.n < RunTarget}
+\* states still to be advanced: those short of the logged access count (cancelled run), or
+\* within reach of it (a branch of the specification's nondeterminism that has already made
+\* more bus accesses than the real run plus a margin can never match it and is dropped,
+\* which also bounds the expansion by the length of the real run)
+RunGo == IF RunTarget < 0 THEN {x \in rs.S : x.n < Ev.nacc + 64} ELSE {x \in rs.S : x.n < RunTarget}
 
 RunIter ==
   /\ rs.on /\ RunGo # {} /\ rs.fuel > 0
@@ -249,7 +253,32 @@ RunEnd ==
                           ELSE bad
                 /\ cov' = Bump(cov, "REJECTED")
 
-EvRun == RunBegin \/ RunIter \/ RunEnd
+\* A Run that did not return (watchdog).  It is a violation of totality only for a program
+\* that halts: the specification runs the program itself (bounded) and the hang is rejected
+\* exactly when every branch of the specification stops.
+HangFuel == 4000
+HangBegin ==
+  /\ l <= Len(TraceLog) /\ IsHangOfRun /\ ~rs.on /\ ~done
+  /\ rs' = [on |-> TRUE, hang |-> TRUE, S |-> {RunStart(c, SchedOf(Ev.run.sched))}, D |-> {}, fuel |-> HangFuel]
+  /\ UNCHANGED <<l, c, bad, cov, done, slot, kf>>
+HangIter ==
+  /\ rs.on /\ "hang" \in DOMAIN rs /\ rs.S # {} /\ rs.fuel > 0
+  /\ LET bp == {Ev.run.bp[i] : i \in 1 .. Len(Ev.run.bp)}
+         nx == UNION {StepAcc(x) : x \in rs.S}
+         fin == {x \in nx : Stops(x, bp) # "no"}
+     IN rs' = [rs EXCEPT !.S = nx \ fin, !.D = rs.D \cup fin, !.fuel = rs.fuel - 1]
+  /\ UNCHANGED <<l, c, bad, cov, done, slot, kf>>
+HangEnd ==
+  /\ rs.on /\ "hang" \in DOMAIN rs /\ (rs.S = {} \/ rs.fuel = 0)
+  /\ l' = l + 1 /\ done' = FALSE /\ rs' = NoRun /\ KeepSK /\ UNCHANGED c
+  /\ IF rs.S = {} /\ rs.D # {}
+     THEN /\ bad' = IF Len(bad) < MaxBad
+                    THEN Append(bad, [line |-> l, asp |-> {"hang"}, tag |-> "hang", pc |-> 0, f |-> 0, u |-> 0]) ELSE bad
+          /\ cov' = Bump(cov, "REJECTED")
+     ELSE bad' = bad /\ cov' = Bump(cov, "hang of a program that does not halt in the specification (ignored)")
+
+EvRun == RunBegin \/ (RunIter /\ "hang" \notin DOMAIN rs) \/ (RunEnd /\ "hang" \notin DOMAIN rs)
+         \/ HangBegin \/ HangIter \/ HangEnd
 
 \* a Run that did not return (watchdog) - never a behaviour of a halting program (C12)
 EvRaise == IsEv("q") /\ c' = [c EXCEPT !.pend = PendOf(Ev.pend)] /\ UNCHANGED <<bad, cov>> /\ KeepSK
